@@ -198,10 +198,19 @@ def h13c(c):
             c.ob("stream-carries-its-strategy-filter", norm(st.listener_kwargs) == norm(k), got=str(st.listener_kwargs), want=str(k))
 
 
+def h13d(c, U=3):
+    """loop level (C07 world, two requests queued together): each request takes effect at its own first due update whatever other
+    packages share the simulation's pending queue - a strategy's cancel is not held up by someone else's slower placement"""
+    from .c07 import h07
+    from .c06 import _Only
+    h07(_Only(c, ("executed-at-first-due-update", "never-due", "executed-at-most-once", "no-exception")), U=U, R=2)
+
+
 OUT = ["strategies sharing mutable Python state by other means", "more than 2 orders per strategy / 2 traded levels (H13a)", "more than U updates x 3 strategies (H13b)"]
 HARNESSES = [
     Harness("H13a", h13a, quick=dict(na=1, nb=1), thorough=dict(na=2, nb=2), pattern="P4 relational (two worlds, same symbolic inputs)", requires=["worlds", "A-filled"],
             outside=OUT, max_paths=(400000, 4000000), wall_s=(300, 3000)),
+    Harness("H13d", h13d, quick=dict(U=3), thorough=dict(U=4), pattern="P3 with symbolic time", requires=["run", "executed"], outside=OUT, selfcheck=False),
     Harness("H13c", h13c, pattern="exhaustive choice product (structural)", requires=["separate", "may-share"], outside=OUT, selfcheck=False),
     Harness("H13b", h13b, quick=dict(U=2), thorough=dict(U=3), pattern="P5 fault schedule as a variable", requires=["injected"], outside=OUT, selfcheck=False),
 ]
